@@ -31,7 +31,7 @@ var configs = map[string]propCfg{
 		Thresholds: []thresh{{"evaluations", 100000, 3000000}, {"prefix_cuts", 5000, 100000}, {"illformed_injections", 5000, 200000}, {"parsefile_calls", 100, 3000}, {"badpath_calls", 5, 5}, {"inputs_invalid_utf8", 10000, 300000}, {"soup_accepted_list", 100, 3000}, {"soup_accepted_object", 100, 3000}, {"stackprobe_runs", 2, 2}},
 		Assume:     append([]string{"strace/ptrace may be unavailable: the read-fault sub-check then counts as skipped (see observed.readfault_skipped)"}, stdAssume...)},
 	"C20": {Level: "exploration",
-		Rule:       "case = one document with exactly one injected syntax error at a known byte offset (K1 invalid literal in value position, K2 garbage where a key must start, K3 wrong character instead of ':', K4 stray character after a nested container in an object) at any depth, newlines at random legal positions, optional preamble with newlines before the root bracket; the cited line must be in the accepted set {lines of the injected token's characters, line of the delimiter that terminates an invalid literal}, counted from byte 0 of the input; cases whose message does not quote the injected token are vacuous and only counted; distinct by document hash",
+		Rule:       "case = one document with exactly one injected syntax error at a known byte offset (K1 invalid literal in value position, K2 garbage where a key must start, K3 wrong character instead of ':', K4 stray character after a nested container in an object) at any depth, newlines at random legal positions, optional preamble with newlines before the root bracket; the cited line must be the line of the detection character (the stray character itself for K2-K4, the ',' ']' '}' that terminates the invalid literal for K1), counted from byte 0 of the input; cases whose message does not quote the injected token are vacuous and only counted; distinct by document hash",
 		Thresholds: []thresh{{"line_citing_errors", 2000, 150000}, {"kind/K1", 300, 20000}, {"kind/K2", 150, 10000}, {"kind/K3", 150, 10000}, {"kind/K4", 100, 5000}, {"max_line_cited", 8, 15}, {"via_parsefile", 10, 1000}},
 		Assume:     stdAssume},
 	"C05": {Level: "exploration", RaceSmoke: true,
@@ -46,4 +46,8 @@ var configs = map[string]propCfg{
 		Rule:       "case = a pair of trees that differ by exactly one edit at a random depth (look-alike kind swap, scalar nudged incl. floats by 1..6000 ulp, key renamed with the count kept, element appended/removed, two elements swapped, keys re-inserted in permuted order, nil swapped) built separately through random construction routes, or a triple from a small pool; Equals must equal typed structural equality of the generating trees in both directions, be reflexive, hold for a separately built copy, never panic and leave both operands unchanged; triples check transitivity; distinct by canonical pair hash",
 		Thresholds: []thresh{{"evaluations", 4000, 200000}, {"equal_pairs", 500, 20000}, {"unequal_pairs", 2000, 100000}, {"transitive_premises", 100, 5000}},
 		Assume:     append([]string{"NaN-free data; plain (non-derived) containers"}, stdAssume...)},
+	"C08": {Level: "exploration",
+		Rule:       "case = one container tree (depth<=6, random construction routes) cloned once, then a history of 20/30 mutations applied at random nodes of the original or of the clone through methods (Add, Insert, Replace, Delete, Pop, Reverse, Clear, Set, Unset) and tree-form writes (SetTF incl. paths that create intermediates, UnsetTF); oracle: clone Equals and has the tree's content, the sets of container identities reachable from both sides are disjoint (roots included, re-checked after every mutation), and after every mutation the OTHER side's full snapshot (content + identities) is unchanged; distinct by canonical tree hash",
+		Thresholds: []thresh{{"evaluations", 800, 30000}, {"mutations", 10000, 600000}, {"tree_form_mutations", 1000, 60000}, {"containers_compared", 1500, 60000}, {"max_depth", 5, 6}},
+		Assume:     stdAssume},
 }
